@@ -198,6 +198,23 @@ class OneShotFault(object):
         return model.run_op(name, args, impl)
 
 
+KNOWN_ENV = {'HOME', 'XDG_DATA_HOME', 'TRASH_VOLUMES', 'TRASH_PUT_FAKE_UID_FOR_TESTING', 'TRASH_ENABLE_HOME_FALLBACK', 'TRASH_DATE',
+             'COLUMNS', 'LINES', 'TERM', 'LANG', 'LC_ALL', 'LC_MESSAGES', 'LANGUAGE', 'PYTHONIOENCODING', 'TZ'}
+
+
+def consulted_unknown_env(world, step, uid=1000):
+    """names of environment variables, other than the documented ones, that the command looks up when it runs this
+    scenario (probed on a throw-away copy of the world): a harness then repeats the case with each of them set to a
+    value that must not change the property's verdict, e.g. '0'"""
+    from . import facade
+    facade.ENV_LOOKUPS.clear()
+    try:
+        run_model(world, [step], uid=uid)
+    except BaseException:
+        pass
+    return sorted(k for k in facade.ENV_LOOKUPS if k not in KNOWN_ENV)
+
+
 BACKEND = 'model'  # 'real': run_model() executes the scenario on the real file system instead (replay of counterexamples)
 
 
